@@ -395,6 +395,17 @@ fn process_transactions(
         }
     }
 
+    // Withholdings that no dividend of the same day and symbol absorbed must not vanish silently.
+    let mut leftover_taxes: Vec<((NaiveDate, String), Decimal)> = dividend_taxes.into_iter().collect();
+    leftover_taxes.sort_by(|a, b| a.0.cmp(&b.0));
+    for ((date, symbol), amount) in leftover_taxes {
+        warnings.push(format!(
+            "Tax withholding of {} for {} on {} has no dividend on the same day — skipped",
+            amount, symbol, date
+        ));
+        skipped_count += 1;
+    }
+
     // Apply deferred cancellations: remove original sells that were cancelled.
     // This must happen after all transactions are processed because Cancel Sell
     // entries can appear before their corresponding original Sell in the JSON.
